@@ -21,7 +21,8 @@ import warnings
 
 import numpy as np
 
-from holopy.core.metadata import make_subset_data, dict_to_array
+from holopy.core.metadata import (make_subset_data, dict_to_array,
+                                  illumination)
 from holopy.core.utils import ensure_array, ensure_listlike, ensure_scalar
 from holopy.core.holopy_object import HoloPyObject
 from holopy.core.errors import raise_fitting_api_error
@@ -287,6 +288,13 @@ class Model(HoloPyObject):
         optics_map = read_map(self._maps['optics'], pars)
         if 'noise_sd' in optics_map and optics_map['noise_sd'] is not None:
             val = optics_map['noise_sd']
+            if (isinstance(val, (list, np.ndarray)) and np.ndim(val) == 1
+                    and illumination in getattr(schema, 'dims', ())
+                    and len(val) == schema.sizes[illumination]):
+                # one value per channel, in the order of the data's channels
+                # (dividing by a bare list would go by position along the
+                # last axis of the data, whichever that is)
+                val = dict(zip(schema[illumination].values, val))
             if isinstance(val, dict) and schema is not None:
                 # a per-channel dictionary becomes an array labelled like
                 # the data, as it does when it is attached to the data
